@@ -656,7 +656,82 @@ func c17Decode(c *fw.Ctx, tg c17Target, in []byte, sub string) {
 	}
 }
 
+// c17Layout: which field of which RTP message type travels under which tag. The reference encoder reads the tags from
+// the struct definitions, so it follows a field that is moved to another tag; a peer does not. The table is the layout
+// of the pinned tree — the one HomeKit controllers interoperate with (HAP "Setup Endpoints", "Selected / Supported RTP
+// Stream Configuration", "Streaming Status"). A field, a tag or a type that is not in it is reported.
+var c17Layout = map[string]map[string]string{
+	"Addr":                     {"IPVersion": "1", "IPAddr": "2", "VideoRtpPort": "3", "AudioRtpPort": "4"},
+	"AudioCodecConfiguration":  {"Type": "1", "Parameters": "2"},
+	"AudioCodecParameters":     {"Channels": "1", "Bitrate": "2", "Samplerate": "3"},
+	"AudioParameters":          {"CodecType": "1", "CodecParams": "2", "RTP": "3", "ComfortNoise": "4"},
+	"AudioStreamConfiguration": {"Codecs": "1", "ComfortNoise": "2"},
+	"Configuration":            {"Suites": "-"},
+	"CryptoSuite":              {"Type": "1", "MasterKey": "2", "MasterSalt": "3"},
+	"RTPParams":                {"PayloadType": "1", "Ssrc": "2", "Bitrate": "3", "Interval": "4", "ComfortNoisePayloadType": "5", "MTU": "6"},
+	"SessionControlCommand":    {"Identifier": "1", "Type": "2"},
+	"SetupEndpoints":           {"SessionId": "1", "ControllerAddr": "3", "Video": "4", "Audio": "5"},
+	"SetupEndpointsResponse":   {"SessionId": "1", "Status": "2", "AccessoryAddr": "3", "Video": "4", "Audio": "5", "SsrcVideo": "6", "SsrcAudio": "7"},
+	"StreamConfiguration":      {"Command": "1", "Video": "2", "Audio": "3"},
+	"StreamingStatus":          {"Status": "1"},
+	"SupportedCryptoSuite":     {"Type": "2"},
+	"VideoCodecAttributes":     {"Width": "1", "Height": "2", "Framerate": "3"},
+	"VideoCodecConfiguration":  {"Type": "1", "Parameters": "2", "Attributes": "3"},
+	"VideoCodecLevel":          {"Level": "2"},
+	"VideoCodecPacketization":  {"Mode": "3"},
+	"VideoCodecParameters":     {"Profiles": "-", "Levels": "-", "Packetizations": "-"},
+	"VideoCodecProfile":        {"Id": "1"},
+	"VideoParameters":          {"CodecType": "1", "CodecParams": "2", "Attributes": "3", "RTP": "4"},
+	"VideoStreamConfiguration": {"Codecs": "1"},
+}
+
+func c17CheckLayout(c *fw.Ctx) {
+	seen := map[string]bool{}
+	var walk func(t reflect.Type)
+	walk = func(t reflect.Type) {
+		for t.Kind() == reflect.Ptr || t.Kind() == reflect.Slice {
+			t = t.Elem()
+		}
+		if t.Kind() != reflect.Struct || seen[t.Name()] || t.PkgPath() != "github.com/brutella/hc/rtp" {
+			return
+		}
+		seen[t.Name()] = true
+		c.Eval(1)
+		want, known := c17Layout[t.Name()]
+		got := map[string]string{}
+		for i := 0; i < t.NumField(); i++ {
+			f := t.Field(i)
+			if tag, ok := f.Tag.Lookup("tlv8"); ok {
+				got[f.Name] = tag
+			}
+			walk(f.Type)
+		}
+		cas := c17Case{Kind: "layout", Target: t.Name()}
+		if !known {
+			c.Report("wire-layout/unknown-type", "rtp."+t.Name()+" is part of an RTP message but not of the known wire layout", cas)
+			return
+		}
+		for name, tag := range want {
+			if got[name] != tag {
+				c.Report("wire-layout/"+t.Name()+"."+name, fmt.Sprintf("rtp.%s.%s travels under tag %q, a peer expects it under tag %q", t.Name(), name, got[name], tag), cas)
+			}
+		}
+		for name, tag := range got {
+			if _, ok := want[name]; !ok {
+				c.Report("wire-layout/"+t.Name()+"."+name, fmt.Sprintf("rtp.%s has a field %s under tag %q that the known wire layout does not have", t.Name(), name, tag), cas)
+			}
+		}
+	}
+	for _, tg := range c17Targets() {
+		walk(tg.Type)
+	}
+	c.Class("wire-layout")
+}
+
 func c17Run(c *fw.Ctx) {
+	if c.Shard == 0 {
+		c17CheckLayout(c)
+	}
 	{
 		interfRun(c, "C17") // statement-level interleavings of operations on disjoint objects (subprocess)
 	}
@@ -787,6 +862,10 @@ func c17Near(leaves []c17Leaf, cur []c17Dev, d c17Dev) bool {
 func c17Replay(c *fw.Ctx, raw json.RawMessage) {
 	var cas c17Case
 	json.Unmarshal(raw, &cas)
+	if cas.Kind == "layout" {
+		c17CheckLayout(c)
+		return
+	}
 	for _, tg := range c17Targets() {
 		if tg.Name != cas.Target {
 			continue
@@ -803,7 +882,7 @@ func init() {
 	fw.Register(&fw.Check{
 		ID:          "C17",
 		Level:       "exploration",
-		Rule:        "for every RTP message type of the library (setup endpoints, its response, selected and supported stream configurations, supported RTP configuration, streaming status) and three synthetic structs covering every field kind (8/16/32/64-bit ints, float32, bool, string, bytes, nested struct, tagged list, inline list, list elements longer than one fragment; fields tagged 0 holding byte strings and strings of up to 600 bytes; an inline list whose elements begin with a string; strings with 2- and 3-byte characters lying across the 255-byte fragment boundary): a base value, then every field (reflection-enumerated leaf) moved through its boundary alphabet with 1 and all pairs of 2 simultaneous deviations (thorough: triples); bytes compared with an independent reflective little-endian TLV8 encoder, then Unmarshal(Marshal(v)) compared with v; ownership: the bytes returned by Marshal must survive later Marshal calls, Unmarshal must not modify its input and decoding the same bytes twice must agree. Decoder inputs per type: all byte strings of length ≤2, every prefix and 8 substitutions per byte of a valid encoding, every tag 0..15 with value lengths 0..9. distinct_nontrivial = distinct (target type, case kind) classes A fourth synthetic struct uses tags 126, 127, 128, 129, 131, 200, 250, 254, 255. Plus, in a subprocess built with a scheduling point before EVERY statement of hc's packages (textual insertion through go build -overlay): every interleaving with at most 1 (thorough 2) preemptions of pairs of operations on disjoint objects — and, where the property is about served requests, of pairs of handlers on two verified connections of one accessory touching different characteristics — each side must observe exactly what it observes when the two run one after the other (module-level mutable state is what makes them differ).",
+		Rule:        "for every RTP message type of the library (setup endpoints, its response, selected and supported stream configurations, supported RTP configuration, streaming status) and three synthetic structs covering every field kind (8/16/32/64-bit ints, float32, bool, string, bytes, nested struct, tagged list, inline list, list elements longer than one fragment; fields tagged 0 holding byte strings and strings of up to 600 bytes; an inline list whose elements begin with a string; strings with 2- and 3-byte characters lying across the 255-byte fragment boundary): a base value, then every field (reflection-enumerated leaf) moved through its boundary alphabet with 1 and all pairs of 2 simultaneous deviations (thorough: triples); bytes compared with an independent reflective little-endian TLV8 encoder, then Unmarshal(Marshal(v)) compared with v; the tag under which each field of each RTP message type travels is compared with the known wire layout (a reflective reference encoder follows a field that moves to another tag, a peer does not); ownership: the bytes returned by Marshal must survive later Marshal calls, Unmarshal must not modify its input and decoding the same bytes twice must agree. Decoder inputs per type: all byte strings of length ≤2, every prefix and 8 substitutions per byte of a valid encoding, every tag 0..15 with value lengths 0..9. distinct_nontrivial = distinct (target type, case kind) classes A fourth synthetic struct uses tags 126, 127, 128, 129, 131, 200, 250, 254, 255. Plus, in a subprocess built with a scheduling point before EVERY statement of hc's packages (textual insertion through go build -overlay): every interleaving with at most 1 (thorough 2) preemptions of pairs of operations on disjoint objects — and, where the property is about served requests, of pairs of handlers on two verified connections of one accessory touching different characteristics — each side must observe exactly what it observes when the two run one after the other (module-level mutable state is what makes them differ).",
 		Run:         c17Run,
 		Replay:      c17Replay,
 		Budget:      func(string) time.Duration { return 20 * time.Minute },
